@@ -76,3 +76,38 @@ func VerifFrameGarbage() {
 	symapi.Assert((p == nil) == (err != nil), "packet-xor-error")
 	symapi.Reach("end")
 }
+
+// VerifFrameChannelLookup: a frame read from the wire is attributed to track i exactly when
+// the session mapped track i to the frame's channel byte; tracks that are not set up (-1)
+// match no wire channel, and a frame on an unmapped channel is an error that still consumes
+// exactly that frame.
+func VerifFrameChannelLookup() {
+	var table []int
+	for i := 0; i < 4; i++ {
+		if symapi.Bool("mapped") {
+			table = append(table, int(symapi.Byte("c")))
+		} else {
+			table = append(table, -1)
+		}
+	}
+	c := symapi.Byte("wire")
+	frame := []byte{'$', c, 0, 12, 0x80, 96, 0, 1, 0, 0, 0, 2, 0, 0, 0, 3, 'R', 'T', 'S', 'P'}
+	r := bufio.NewReaderSize(bytes.NewReader(frame), 16)
+	got, err := ReadPacket(r, table)
+	want := -1
+	for i, v := range table {
+		if v == int(c) {
+			want = i
+			break
+		}
+	}
+	if want < 0 {
+		symapi.Assert(err != nil && got == nil, "frame-on-unmapped-channel-is-an-error")
+	} else {
+		symapi.Assert(err == nil && got != nil && int(got.Channel) == want, "frame-attributed-to-the-mapped-track")
+	}
+	rest := make([]byte, 4)
+	k, _ := io.ReadFull(r, rest)
+	symapi.Assert(k == 4 && string(rest) == "RTSP", "positioned-at-next-message")
+	symapi.Reach("end")
+}
